@@ -42,7 +42,7 @@ AllowedCodonAlign(aa, nt, new, code) ==
   /\ Len(aa.rows) > 0 => new.len = 3 * Width(aa)
 
 RelationalOps == {"ShuffleSequences", "Sample", "SampleSeqBag", "CleanNames", "TrimNames", "TrimNamesAuto",
-                  "Compress", "Mask", "MaskOccurences", "MaskUnique", "MaxCharStats", "Consensus",
+                  "Compress", "Mask", "MaskPositions", "MaskOccurences", "MaskUnique", "MaxCharStats", "Consensus",
                   "ShuffleSites", "Swap", "SimulateRogue", "BuildBootstrap", "RandSubAlign", "Mutate",
                   "AddGaps", "Recombine", "Rarefy", "TranslateByReference", "CodonAlign"}
 \* operations that never change any existing object (queries and copy-producing operations, C19)
@@ -226,7 +226,7 @@ CliOf(op, o, R) ==
 \* operations that have a command-line twin in the harness (harness/heap_cli.go)
 CliOps == {"RemoveGapSites", "RemoveCharacterSites", "RemoveMajorityCharacterSites", "RemoveGapSeqs", "RemoveCharacterSeqs",
            "ReverseComplement", "Sort", "Consensus", "DiffWithFirst", "ReplaceMatchChars", "Translate", "TranslateByReference",
-           "Deduplicate", "Compress", "Mask", "MaskOccurences", "MaskUnique", "SubAlign", "Replace",
+           "Deduplicate", "Compress", "Mask", "MaskPositions", "MaskOccurences", "MaskUnique", "SubAlign", "Replace",
            "ShuffleSequences", "Swap", "Recombine", "Mutate", "AddGaps", "Sample", "SampleSeqBag", "RandSubAlign",
            "Rename", "RenameRegexp", "CleanNames", "TrimNames", "TrimNamesAuto", "AppendSeqIdentifier", "TrimSequences",
            "Unalign", "Transpose", "RefCoordinates", "Split", "SelectSites", "RefSites", "InversePositions", "CodonAlign", "InverseCoordinates"} \cup CliQueryOps
@@ -247,6 +247,7 @@ ErrRel(h, op, recv, a) ==      \* must the call fail?
   CASE op \in {"Sample", "SampleSeqBag"} -> SampleErr(o, a.nb)
     [] op = "TrimNames" -> TrimNamesErr(o, a.size)
     [] op = "Mask" -> MaskErr(o, a.ref, a.start, a.repl, a.noref)
+    [] op = "MaskPositions" -> MaskPosErr(o, a.ref, a.pos, a.repl, a.noref)
     [] op = "MaskOccurences" -> MaskOccErr(o, a.ref, a.repl)
     [] op = "MaskUnique" -> MaskOccErr(o, a.ref, a.repl)
     [] op = "Swap" -> a.rp < 0 \/ a.rp > a.rq
@@ -264,6 +265,7 @@ Allowed(h, op, recv, a, post, new, ret) ==
     [] op = "TrimNamesAuto" -> AllowedTrim(pre, post, PairSet(ret.map), -1) /\ new = <<>>
     [] op = "Compress" -> AllowedCompress(pre, post, ret.w) /\ new = <<>>
     [] op = "Mask" -> AllowedMask(pre, post, a.ref, a.start, a.len, a.repl, a.nogap, a.noref) /\ new = <<>>
+    [] op = "MaskPositions" -> AllowedMaskPos(pre, post, a.ref, a.pos, a.repl, a.nogap, a.noref) /\ new = <<>>
     [] op = "MaskOccurences" -> AllowedMaskOcc(pre, post, a.ref, a.max, a.repl) /\ new = <<>>
     [] op = "MaskUnique" -> AllowedMaskOcc(pre, post, a.ref, 1, a.repl) /\ new = <<>>
     [] op = "MaxCharStats" -> post = pre /\ new = <<>> /\ AllowedMaxChar(pre, a.igaps, a.ins, ret.out, ret.occur, ret.total)
